@@ -27,6 +27,7 @@ import (
 	"time"
 
 	nrinet "github.com/containerd/nri/pkg/net"
+	"github.com/containerd/nri/pkg/verifhook"
 	"github.com/containerd/ttrpc"
 )
 
@@ -207,6 +208,7 @@ func (m *mux) Open(id ConnID) (net.Conn, error) {
 
 func (m *mux) Close() error {
 	m.closeOnce.Do(func() {
+		verifhook.Point("mux.close")
 		m.connLock.Lock()
 		defer m.connLock.Unlock()
 		for _, conn := range m.conns {
@@ -261,6 +263,7 @@ func (m *mux) write(id ConnID, buf []byte) (int, error) {
 			return 0, err
 		}
 
+		verifhook.Point("mux.write.payload")
 		n, err = m.trunk.Write(data[:size])
 		if err != nil {
 			err = fmt.Errorf("failed to write payload to trunk: %w", err)
@@ -346,6 +349,7 @@ func (m *mux) reader() {
 		conn, ok := m.conns[ConnID(cid)]
 		m.connLock.RUnlock()
 		if ok {
+			verifhook.Point("mux.reader.queue")
 			select {
 			case conn.readC <- buf:
 			default:
@@ -385,6 +389,7 @@ func (c *conn) Read(buf []byte) (int, error) {
 		ok  bool
 	)
 
+	verifhook.Point("mux.conn.read")
 	select {
 	case err, ok = <-c.doneC:
 		if !ok || err == nil {
